@@ -52,7 +52,7 @@ func verifC16Cache() {
 	clock := int64(vUint32()) + 1_000_000 // seconds
 	timeNow = func() time.Time { return time.Unix(clock, 0) }
 	failing := false
-	failKind := vInt(0, 2-vTier()) // (thorough: longer histories, two kinds of failure)
+	failKind := []int{0, 1, 3, 2}[vInt(0, 2-vTier())] // transport error, response code 9, NXDOMAIN (thorough: longer histories, the first two kinds)
 	version := 0
 	ttlA, ttlB := vUint32(), vUint32()
 	two := vBool()
@@ -72,6 +72,8 @@ func verifC16Cache() {
 				return &dns.Message{QR: 1, RCode: 9}, nil
 			case 2:
 				return &dns.Message{QR: 1, RCode: 2}, nil
+			case 3:
+				return &dns.Message{QR: 1, RCode: 3}, nil // NXDOMAIN is a failure of the lookup like any other
 			}
 			return nil, errVTransport
 		}
@@ -419,4 +421,53 @@ func verifC16ZeroTTLConcurrent() {
 	vAssert(queries == 2, "an answer that is not cacheable is never shared: each concurrent lookup asks upstream")
 	vAssert(a != b, "each lookup returns the answer it fetched itself")
 	vReach("zero-ttl")
+}
+
+// verifC16Constructors: the caching clauses for resolvers as users obtain them:
+// NewResolver caches, two resolvers never share answers, SetCacheSize(0)
+// switches caching off, a later SetCacheSize(n) switches it on again, and a
+// cache smaller than the working set still never serves a stale answer.
+func verifC16Constructors() {
+	clock := int64(6_000_000)
+	timeNow = func() time.Time { return time.Unix(clock, 0) }
+	queries := 0
+	dns.VerifHook_DoH = func(ctx context.Context, msg *dns.Message, URL string) (*dns.Message, error) {
+		queries++
+		tag := byte(1)
+		if len(URL) > 0 && URL[len(URL)-1] == 'b' {
+			tag = 2
+		}
+		d, _ := dns.DecodeMessage(msg.Bytes())
+		return &dns.Message{QR: 1, Answer: []dns.RR{{Name: d.Question[0].Name, Type: 1, Class: 1, TTL: 100, Data: net.IP{10, tag, d.Question[0].Name[0], byte(queries)}}}}, nil
+	}
+	ctx := context.Background()
+	r1, err1 := NewResolver("https://127.0.0.1/a")
+	r2, err2 := NewResolver("https://127.0.0.1/b")
+	vAssert(err1 == nil && err2 == nil, "NewResolver")
+	a1, _ := r1.resolveOne(ctx, "x", "A")
+	n := queries
+	a2, _ := r1.resolveOne(ctx, "x", "A")
+	vAssert(queries == n && len(a1) == 1 && len(a2) == 1 && vBytesEq(a1[0].(net.IP), a2[0].(net.IP)), "a resolver from NewResolver serves the repeated lookup from its cache")
+	b1, _ := r2.resolveOne(ctx, "x", "A")
+	vAssert(queries == n+1 && len(b1) == 1 && b1[0].(net.IP)[1] == 2, "another resolver asks its own upstream: caches are not shared")
+	r1.SetCacheSize(0)
+	n = queries
+	_, _ = r1.resolveOne(ctx, "x", "A")
+	_, _ = r1.resolveOne(ctx, "x", "A")
+	vAssert(queries == n+2, "with the cache switched off every lookup asks upstream")
+	r1.SetCacheSize(1 + vInt(0, 1))
+	n = queries
+	_, _ = r1.resolveOne(ctx, "x", "A")
+	_, _ = r1.resolveOne(ctx, "x", "A")
+	vAssert(queries == n+1, "switched on again, the cache serves the repeated lookup")
+	// a working set larger than the cache: whatever is evicted, nothing stale is served after expiry
+	for _, name := range []string{"y", "z", "x"} {
+		res, _ := r1.resolveOne(ctx, name, "A")
+		vAssert(len(res) == 1 && res[0].(net.IP)[2] == name[0], "each name gets its own answer")
+	}
+	clock += 200
+	n = queries
+	res, _ := r1.resolveOne(ctx, "x", "A")
+	vAssert(queries == n+1 && len(res) == 1 && int(res[0].(net.IP)[3]) == queries, "after expiry the answer is fetched again")
+	vReach("constructors")
 }
